@@ -308,7 +308,8 @@ static J do_corrupt(const J& op) {
     const J& how = op["how"]; std::string k = how["k"].str();
     if (path.empty()) { out.set("skipped", "unresolved"); return out; }
     if (k == "noop") { out.set("done", false); return out; }
-    if (k == "write") { g_fs.put_file(path, fromhex(how["hex"].str()), 0600); out.set("done", true); return out; }
+    if (k == "write") { g_fs.put_file(path, fromhex(how["hex"].str()), (mode_t)strtol(how["mode"].str("0600").c_str(), nullptr, 8)); out.set("done", true); return out; }
+    if (k == "mkdir") { g_fs.mkdirs(path, 0700); out.set("done", true); return out; }        // a DIRECTORY where the library expects a file (e.g. "<uuid>.object/")
     InodeP par; std::string leaf; InodeP f = g_fs.lookup(path, &par, &leaf);
     if (!f || f->isdir) { out.set("skipped", "missing"); return out; }
     std::string d = f->data ? *f->data : std::string();
@@ -460,6 +461,17 @@ static J exec_call(Ctx& c, const J& op) {
     }
     if (f == "C_GetSlotInfo") { CK_SLOT_INFO si; memset(&si, 0, sizeof si); CK_SLOT_ID s = resolve(c, op["slot"], &unres); CALL(F->C_GetSlotInfo(s, op["null"].boolean() ? nullptr : &si)); out.set("rv", (long)rv); out.set("flags", (long)si.flags); return out; }
     if (f == "C_GetTokenInfo") { CK_TOKEN_INFO ti; memset(&ti, 0, sizeof ti); CK_SLOT_ID s = resolve(c, op["slot"], &unres); CALL(F->C_GetTokenInfo(s, op["null"].boolean() ? nullptr : &ti)); out.set("rv", (long)rv); out.set("slot", (long)s); if (rv == CKR_OK) out.set("info", tok_info_json(ti)); return out; }
+    if (f == "C_GetMechanismList" && op["cap"].t == J::STR && op["cap"].str() == "exact") {
+        // the two-call idiom: size query, then a buffer of exactly the announced number of entries (ASan sees every byte beyond it)
+        CK_ULONG n = 0; CK_SLOT_ID s = resolve(c, op["slot"], &unres);
+        CALL(F->C_GetMechanismList(s, nullptr, &n)); out.set("rv_query", (long)rv); out.set("n_query", (long)n);
+        if (rv != CKR_OK || n > 100000) { out.set("rv", (long)rv); return out; }
+        Buf b; b.alloc(n * sizeof(CK_MECHANISM_TYPE)); CK_ULONG n2 = n;
+        CALL(F->C_GetMechanismList(s, b.isnull ? nullptr : (CK_MECHANISM_TYPE_PTR)b.p, &n2));
+        out.set("rv", (long)rv); out.set("n", (long)n2);
+        if (rv == CKR_OK) { J a = J::arr(); for (CK_ULONG k = 0; k < n2 && k < n; k++) a.push((long)((CK_MECHANISM_TYPE*)b.p)[k]); out.set("mechs", a); }
+        return out;
+    }
     if (f == "C_GetMechanismList") {
         CK_ULONG n = 0; Buf b; const J& cap = op["cap"]; CK_SLOT_ID s = resolve(c, op["slot"], &unres);
         if (!cap.isnull()) { b.alloc(cap.num() * sizeof(CK_MECHANISM_TYPE)); n = cap.num(); }
